@@ -74,6 +74,7 @@ pub const SPEC: PropertySpec = PropertySpec {
         "fault.transplant_tx.l2",
         "fault.ledger_subst",
         "fault.manifest_subst",
+        "fault.marker_relabel.l3",
     ],
 };
 
@@ -101,6 +102,12 @@ pub enum Damage {
     TransplantTx { dst: u32, src: u32, mode: u8, level: u8 },
     LedgerSubst,
     ManifestSubst,
+    /// L3: the commit marker of transaction `idx` is re-labelled to transaction kind `to` (of
+    /// another append authority than the original kind) and its
+    /// commit digest and outer record digest are recomputed (frames untouched): every checksum of
+    /// the record verifies, only the meaning of the transaction changed.
+    #[serde(alias = "MarkerRelabel")]
+    MarkerRelabel { idx: u32, to: u8 },
 }
 
 impl Damage {
@@ -131,6 +138,7 @@ impl Damage {
             Damage::TransplantTx { level, .. } => format!("transplant_tx.l{level}"),
             Damage::LedgerSubst => "ledger_subst".to_owned(),
             Damage::ManifestSubst => "manifest_subst".to_owned(),
+            Damage::MarkerRelabel { .. } => "marker_relabel.l3".to_owned(),
         }
     }
     /// Class stem for violations (level-free, so both levels shrink to one shape).
@@ -163,7 +171,7 @@ fn gen_level(rng: &mut Rng) -> u8 {
 
 fn gen_damage(rng: &mut Rng, avoid: bool, manifest: bool) -> Damage {
     loop {
-        let d = match rng.weighted(&[6, 4, 3, 6, 1, 3, 3, 3, 3, 3, 3, 4, 6, 1, 1]) {
+        let d = match rng.weighted(&[6, 4, 3, 6, 1, 3, 3, 3, 3, 3, 3, 4, 6, 1, 1, 3]) {
             0 => Damage::BitFlip {
                 file: match rng.below(10) {
                     0 | 1 => 1,
@@ -197,7 +205,8 @@ fn gen_damage(rng: &mut Rng, avoid: bool, manifest: bool) -> Damage {
             11 => Damage::TransplantRec { dst: rng.next_u64() as u32, src: rng.next_u64() as u32, replace: rng.chance(1, 2), level: gen_level(rng) },
             12 => Damage::TransplantTx { dst: rng.next_u64() as u32, src: rng.next_u64() as u32, mode: rng.below(3) as u8, level: gen_level(rng) },
             13 => Damage::LedgerSubst,
-            _ => Damage::ManifestSubst,
+            14 => Damage::ManifestSubst,
+            _ => Damage::MarkerRelabel { idx: rng.next_u64() as u32, to: 1 + rng.below(12) as u8 },
         };
         if avoid && d.cross_log() {
             continue;
@@ -224,17 +233,40 @@ impl Scenario for C11 {
                 _ => rng.urange(4, max_txs),
             }
         };
-        let restarts = rng.chance(1, 3);
-        let ops = world::gen_workload(rng, n_progs, target, restarts);
-        let d_progs_n = rng.urange(1, 6);
+        // Epoch-splice shape (1 in 6): several process lifetimes, a donor with the same op shape
+        // (same LSN ranges, different writer-epoch chain from the second epoch on) and mostly
+        // same-position whole-transaction replacements.
+        let epoch_splice = !avoid && !exhaustive && rng.chance(1, 6);
+        let restarts = epoch_splice || rng.chance(1, 3);
+        let mut ops = world::gen_workload(rng, n_progs, if epoch_splice { target.max(4) } else { target }, restarts);
+        if epoch_splice {
+            let mut guard = 0;
+            while ops.iter().filter(|o| matches!(o, WOp::Restart)).count() < 2 && ops.len() >= 2 && guard < 16 {
+                guard += 1;
+                let at = rng.urange(1, ops.len() - 1);
+                if !matches!(ops[at], WOp::Restart) && !matches!(ops[at - 1], WOp::Restart) {
+                    ops.insert(at, WOp::Restart);
+                }
+            }
+        }
+        let d_progs_n = if epoch_splice { rng.urange(n_progs, 6) } else { rng.urange(1, 6) };
         // Donor programs carry other nonces: every donor transaction differs from every original one.
         let donor_progs: Vec<Prog> = (0..d_progs_n).map(|i| world::gen_prog(rng, 1000 + i as u32)).collect();
         // A donor with the same op shape aligns LSN ranges with the original (the interesting case).
-        let donor_ops = if rng.chance(1, 2) && d_progs_n >= n_progs { ops.clone() } else { world::gen_workload(rng, d_progs_n, target, false) };
+        let donor_ops = if (epoch_splice || rng.chance(1, 2)) && d_progs_n >= n_progs { ops.clone() } else { world::gen_workload(rng, d_progs_n, target, false) };
         let manifest = rng.chance(1, 3);
         let n_damages = rng.urange(4, if tier == Tier::Thorough { 40 } else { 16 });
-        let damages = (0..n_damages).map(|_| gen_damage(rng, avoid, manifest)).collect();
-        C11 { avoid, progs, ops, donor_progs, donor_ops, manifest, damages, host_level: rng.chance(3, 4), exhaustive }
+        let damages = (0..n_damages)
+            .map(|_| {
+                if epoch_splice && rng.chance(2, 3) {
+                    let i = rng.below(16) as u32;
+                    Damage::TransplantTx { dst: i, src: i, mode: 0, level: gen_level(rng) }
+                } else {
+                    gen_damage(rng, avoid, manifest)
+                }
+            })
+            .collect();
+        C11 { avoid, progs, ops, donor_progs, donor_ops, manifest, damages, host_level: epoch_splice || rng.chance(3, 4), exhaustive }
     }
 
     fn execute(&self, ctx: &mut RunCtx) -> Outcome {
@@ -361,6 +393,8 @@ fn simpler_damage(d: &Damage) -> Vec<Damage> {
         Damage::RecDup { idx, level } if *idx > 0 => v.push(Damage::RecDup { idx: idx - 1, level: *level }),
         Damage::TxDelete { idx, level } if *idx > 0 => v.push(Damage::TxDelete { idx: idx - 1, level: *level }),
         Damage::TxSwap { idx, level } if *idx > 0 => v.push(Damage::TxSwap { idx: idx - 1, level: *level }),
+        Damage::MarkerRelabel { idx, to } if *idx >= 16 => v.push(Damage::MarkerRelabel { idx: idx % 16, to: *to }),
+        Damage::MarkerRelabel { idx, to } if *idx > 0 => v.push(Damage::MarkerRelabel { idx: idx - 1, to: *to }),
         _ => {}
     }
     v
@@ -619,6 +653,44 @@ fn apply(d: &Damage, a: &Log<'_>, b: &Log<'_>) -> Option<Tree> {
                 }
             }
         }
+        Damage::MarkerRelabel { idx, to } => {
+            if ntx == 0 {
+                return None;
+            }
+            let tx = &a.txs[*idx as usize % ntx];
+            let ci = tx.recs.iter().copied().find(|r| a.parsed.recs[*r].kind == disk::KIND_COMMIT)?;
+            let r = &a.parsed.recs[ci];
+            let mut payload = r.payload(&seg).to_vec();
+            if payload.len() != disk::COMMIT_PAYLOAD_LEN || payload[64] == *to {
+                return None;
+            }
+            // Only re-labellings that move the transaction to another append authority: the
+            // frames then contradict the marker (record authority != transaction authority), which
+            // is what the recovery-side semantic validation is documented to refuse. A relabel
+            // inside one authority group leaves a log with no internal contradiction except the
+            // unverified chain digests (open finding), and forging a fully consistent log is not
+            // damage.
+            let group = |k: u8| match k {
+                1 => 1,
+                2 | 5 | 6 => 2,
+                3 | 8 => 3,
+                4 => 4,
+                7 => 5,
+                9 => 6,
+                10..=12 => 7,
+                _ => 0,
+            };
+            if group(payload[64]) == group(*to) {
+                return None;
+            }
+            payload[64] = *to;
+            let forged = disk::commit_digest_of(&payload);
+            payload[188..220].copy_from_slice(&forged);
+            let mut s = seg[..r.off].to_vec();
+            s.extend_from_slice(&disk::encode_record(disk::KIND_COMMIT, &payload));
+            s.extend_from_slice(&seg[r.end..]);
+            set_seg(&mut tree, s);
+        }
         Damage::LedgerSubst => {
             let l = b.p.tree.get(disk::LEDGER_REL)?.clone();
             if Some(&l) == tree.get(disk::LEDGER_REL) {
@@ -659,9 +731,30 @@ struct Case<'a> {
     accepted_by: std::cell::RefCell<Vec<String>>,
     intact: bool,
     segment_damaged: bool,
+    /// L3 re-labelling: (forged commit digest, original commit digest) - the forged marker stands
+    /// for the original transaction when the accepted list is compared with the original one; what
+    /// is demanded of a re-labelled log is that nothing *observable* is reinterpreted.
+    subst: std::cell::RefCell<Vec<(disk::H, disk::H)>>,
 }
 
 impl Case<'_> {
+    fn unforge(&self, got: &[disk::H]) -> Vec<disk::H> {
+        let subst = self.subst.borrow();
+        got.iter().map(|g| subst.iter().find(|(f, _)| f == g).map_or(*g, |(_, o)| *o)).collect()
+    }
+    fn note_forgeries(&self, seg: &[u8], a: &Produced) {
+        if !matches!(self.d, Damage::MarkerRelabel { .. }) || self.intact {
+            return;
+        }
+        let mut subst = self.subst.borrow_mut();
+        subst.clear();
+        for c in disk::commits_in(seg).0 {
+            if let Some(o) = a.commits.iter().find(|o| o.tx_id == c.tx_id && o.digest != c.digest) {
+                subst.push((c.digest, o.digest));
+            }
+        }
+    }
+
     fn non_prefix_class(&self, host: bool) -> String {
         let stem = if matches!(self.d, Damage::TransplantTx { .. }) {
             "spliced_transaction".to_owned()
@@ -684,6 +777,7 @@ impl Case<'_> {
     }
 
     fn judge_list(&self, api: &str, got: &[disk::H], clean: bool, ctx: &mut RunCtx) -> Res<usize> {
+        let got = &self.unforge(got)[..];
         let is_prefix = got.len() <= self.orig.len() && got.iter().zip(&self.orig).all(|(a, b)| a == b);
         if !is_prefix {
             self.accepted_by.borrow_mut().push(api.to_owned());
@@ -764,8 +858,16 @@ fn run(sc: &C11, ctx: &mut RunCtx) -> Res<()> {
             bail!("harness:outer_digest_formula", "record {i} does not re-seal to itself");
         }
     }
+    for (i, r) in la.parsed.recs.iter().enumerate() {
+        if r.kind == disk::KIND_COMMIT {
+            let p = r.payload(&a.segment);
+            if p.len() == disk::COMMIT_PAYLOAD_LEN && disk::commit_digest_of(p)[..] != p[188..220] {
+                bail!("harness:commit_digest_formula", "commit marker {i} does not re-digest to itself");
+            }
+        }
+    }
     // The undamaged log must pass everything (otherwise nothing below means anything).
-    let intact = Case { d: &Damage::LedgerSubst, orig: orig.clone(), n_orig: orig.len(), store_level: Default::default(), accepted_by: Default::default(), intact: true, segment_damaged: false };
+    let intact = Case { d: &Damage::LedgerSubst, orig: orig.clone(), n_orig: orig.len(), store_level: Default::default(), accepted_by: Default::default(), intact: true, segment_damaged: false, subst: Default::default() };
     let t0 = check_tree(&a.tree, &a, &intact, &base, true, ctx, true)?;
     if t0 != orig.len() {
         bail!("harness:intact_log_not_full", "undamaged log recovered {t0} of {} transactions", orig.len());
@@ -788,7 +890,7 @@ fn run(sc: &C11, ctx: &mut RunCtx) -> Res<()> {
         ctx.hit(&format!("fault.{}", d.name()));
         ctx.trace_str(&format!("damage{i}"));
         let segment_damaged = tree.get(disk::SEGMENT_REL) != Some(&a.segment);
-        let case = Case { d, orig: orig.clone(), n_orig: orig.len(), store_level: Default::default(), accepted_by: Default::default(), intact: false, segment_damaged };
+        let case = Case { d, orig: orig.clone(), n_orig: orig.len(), store_level: Default::default(), accepted_by: Default::default(), intact: false, segment_damaged, subst: Default::default() };
         check_tree(&tree, &a, &case, &base, sc.host_level, ctx, false)?;
     }
     if sc.exhaustive {
@@ -855,6 +957,11 @@ fn exhaustive(sc: &C11, la: &Log<'_>, lb: &Log<'_>, a: &Produced, orig: &[disk::
             plans.push((Damage::KindFlip { idx, to }, false));
         }
     }
+    for idx in 0..ntx {
+        for to in 1..=12u8 {
+            plans.push((Damage::MarkerRelabel { idx, to }, false));
+        }
+    }
     for (d, light) in &plans {
         if sc.avoid && known_shape(d, la) {
             continue;
@@ -863,7 +970,7 @@ fn exhaustive(sc: &C11, la: &Log<'_>, lb: &Log<'_>, a: &Produced, orig: &[disk::
         n += 1;
         ctx.hit(&format!("fault.{}", d.name()));
         let segment_damaged = tree.get(disk::SEGMENT_REL) != Some(&a.segment);
-        let case = Case { d, orig: orig.to_vec(), n_orig: orig.len(), store_level: Default::default(), accepted_by: Default::default(), intact: false, segment_damaged };
+        let case = Case { d, orig: orig.to_vec(), n_orig: orig.len(), store_level: Default::default(), accepted_by: Default::default(), intact: false, segment_damaged, subst: Default::default() };
         if *light {
             check_light(&tree, &case, base, ctx)?;
         } else {
@@ -910,6 +1017,7 @@ fn err_word(e: &str) -> String {
 /// transactions the read-only filesystem recovery accepted (0 on rejection).
 fn check_tree(tree: &Tree, a: &Produced, case: &Case<'_>, base: &Path, host_level: bool, ctx: &mut RunCtx, intact: bool) -> Res<usize> {
     let seg: Vec<u8> = tree.get(disk::SEGMENT_REL).cloned().unwrap_or_default();
+    case.note_forgeries(&seg, a);
     let seg_id = WalSegmentId::from_raw(1);
     // 1. bytes, both modes
     for (mode, name) in [(RecoveryAccessMode::ReadOnly, "recover_wal_segment_bytes(read-only)"), (RecoveryAccessMode::Writable, "recover_wal_segment_bytes(writable)")] {
@@ -971,7 +1079,7 @@ fn check_tree(tree: &Tree, a: &Produced, case: &Case<'_>, base: &Path, host_leve
             }
             Ok(Ok(rep)) => {
                 // Ok = the manifest agrees with the segments: it must then name the end of a prefix.
-                let pos = rep.last_commit_digest.map(|d| case.orig.iter().position(|o| *o == d));
+                let pos = rep.last_commit_digest.map(|d| case.unforge(&[d])[0]).map(|d| case.orig.iter().position(|o| *o == d));
                 if let Some(None) = pos {
                     bail!(case.non_prefix_class(false), "validate_filesystem_manifest accepted a last commit that was never committed to this log ({:?})", case.d);
                 }
@@ -1011,7 +1119,7 @@ fn check_tree(tree: &Tree, a: &Produced, case: &Case<'_>, base: &Path, host_leve
             // Every reader orders records by LSN, so the physical order of whole records in the file
             // is not part of the recovered history: compare in LSN order.
             commits.sort_by_key(|c| c.first_lsn);
-            let got: Vec<disk::H> = commits.iter().map(|c| c.digest).collect();
+            let got: Vec<disk::H> = case.unforge(&commits.iter().map(|c| c.digest).collect::<Vec<_>>());
             let stashed = case.store_level.borrow().is_some();
             if !stashed && (got.len() != n || !got.iter().zip(&case.orig).all(|(x, y)| x == y) || !matches!(parsed.tail, disk::Tail::Clean)) {
                 bail!("repair_left_wrong_log", "after writable recovery the segment holds {} commits (tail {:?}), report says {n}", got.len(), parsed.tail);
@@ -1043,13 +1151,34 @@ fn check_tree(tree: &Tree, a: &Produced, case: &Case<'_>, base: &Path, host_leve
                 // The history the host claims to have recovered (its own reader's order; the physical
                 // record order in the file is not history).
                 let got: Vec<disk::H> = host.runtime_wal().map(|w| w.commits().iter().map(|c| c.commit_digest).collect()).unwrap_or_default();
+                let got = case.unforge(&got);
                 let is_prefix = got.len() <= case.orig.len() && got.iter().zip(&case.orig).all(|(x, y)| x == y);
                 if !is_prefix {
                     let mut sg = got.clone();
                     sg.sort_unstable();
                     let mut sp: Vec<disk::H> = case.orig.iter().take(got.len()).copied().collect();
                     sp.sort_unstable();
-                    let class = if sg == sp { format!("reordered_history_accepted:{}_host", case.d.stem()) } else { case.non_prefix_class(true) };
+                    // A transaction written under a writer epoch this log never had: the writer-epoch
+                    // ledger names every epoch of the log, so no missing chain check excuses this.
+                    let own_epochs: std::collections::BTreeSet<disk::H> = a.commits.iter().map(|c| c.epoch).collect();
+                    // (Only the epochs the ledger still retains: it keeps the newest closed epoch and
+                    // the active one; below that range the unverified chain digests - the open
+                    // finding - are the only link, so that shape stays in the general class.)
+                    let retained_start = tree
+                        .get(disk::LEDGER_REL)
+                        .and_then(|l| disk::ledger_info(l))
+                        .and_then(|l| l.closed.first().map(|e| e.start_lsn).or(l.active.as_ref().map(|e| e.start_lsn)));
+                    let foreign_epoch = retained_start.is_some_and(|start| {
+                        disk::commits_in(&seg).0.iter().any(|c| got.contains(&c.digest) && !case.orig.contains(&c.digest) && !own_epochs.contains(&c.epoch) && c.last_lsn >= start)
+                    });
+                    let class = if sg == sp {
+                        format!("reordered_history_accepted:{}_host", case.d.stem())
+                    } else if foreign_epoch {
+                        ctx.hit("reach.foreign_epoch_transaction_accepted_by_host");
+                        "non_prefix_history_accepted:foreign_writer_epoch_in_retained_ledger_range_host".to_owned()
+                    } else {
+                        case.non_prefix_class(true)
+                    };
                     let cert = host.runtime_wal().and_then(|w| w.recover_read_only().ok()).map(|r| r.certificate.committed_transactions_replayed);
                     bail!(
                         class,
